@@ -109,6 +109,33 @@ pub fn exec_oracle(kind: &str, fields: &[&str]) -> String {
             }
             "oracle pass".to_string()
         }
+        "S_C08R" => {
+            // a datum shift grid with corrections that change quickly from node to node: the inverse undoes the
+            // forward shift to the accuracy the iteration is run to, not to that of a smooth grid
+            let text = unescape(fields[0]);
+            let g = match BaseGrid::gravsoft(text.as_bytes()) {
+                Ok(g) => g,
+                Err(e) => return format!("oracle FAIL well-formed grid rejected ({})", err_class(&e)),
+            };
+            let mut ctx = crate::exec::GridCtx::new();
+            ctx.grids.insert("rough.grid".to_string(), std::sync::Arc::new(g));
+            let Ok(op) = ctx.op("gridshift grids=rough.grid") else { return "oracle FAIL gridshift over a decoded grid not instantiable".to_string() };
+            let pts: Vec<Coor4D> = crate::exec::parse_points(fields[1]).iter().map(|p| Coor4D([p[0], p[1], 10., 2000.])).collect();
+            let mut d = pts.clone();
+            let n1 = ctx.apply(op, Fwd, &mut d).unwrap_or(0);
+            let mut back = d.clone();
+            let n2 = ctx.apply(op, Inv, &mut back).unwrap_or(0);
+            if n1 != pts.len() || n2 != pts.len() {
+                return format!("oracle FAIL gridshift over a rough grid: {n1} / {n2} of {} points inside it transformed", pts.len());
+            }
+            for ((p, f), b) in pts.iter().zip(d.iter()).zip(back.iter()) {
+                let miss = (b[0] - p[0]).hypot(b[1] - p[1]);
+                if !(miss <= 1e-11) {
+                    return format!("oracle FAIL gridshift over a rough grid: ({}, {}) shifted by ({:e}, {:e}) comes back {:e} rad off", p[0], p[1], f[0] - p[0], f[1] - p[1], miss);
+                }
+            }
+            "oracle pass".to_string()
+        }
         "S_INVMOD" => {
             // the `inv` modifier, behind or in front of the operator's name, exchanges the two directions of the
             // operator - whatever the operator: `def inv` forward is `def` inverse, and the other way round
